@@ -1,5 +1,6 @@
 SPECIFICATION Spec
 CONSTANTS
+  MaxT = 2
   NT = 2
   MaxSteps = 100000
   Modes = {"fire", "call"}
@@ -8,7 +9,7 @@ CONSTANTS
   WithStop = TRUE
   WithUnreg = TRUE
   WithOther = TRUE
-  SettleCap = 40
+  KeepOut = FALSE
 INVARIANT Conforms
 VIEW View
 CHECK_DEADLOCK FALSE
